@@ -1420,6 +1420,11 @@ def life_spec(pid, line, snaps, div=None):
     def settled(k):
         """is snapshot k one the runner waited for (the last one, the one it diverged at, the last before a Stop)?"""
         return k == len(P) - 1 or (div is not None and k == div) or (OPS and k + 1 < len(OPS) and OPS[k + 1][0] == "stop")
+    if pid == "C09":
+        for k, p in enumerate(P):
+            for ci, c in enumerate(p["conns"]):
+                if c.get("ids"):
+                    return ("connection-id-changed", "the requests of connection %d reported different ConnectionIDs: %s (operation %d)" % (ci, c["ids"], k))
     # responses: a client receives one frame per handler write, and nothing else (no answer to an
     # Unbind, no frame of another connection); a request with a plain script on an undisturbed
     # connection is served.  Judged before any Stop (Stop adds its notice of disconnection).
@@ -1485,6 +1490,9 @@ def life_spec(pid, line, snaps, div=None):
                     if c.get("onclose") == "0":
                         return ("onclose-missing", "Stop and Run have returned and OnClose was never called for connection %d" % ci)
         if pid == "C09":
+            for ci, c in enumerate(p["conns"]):
+                if c.get("ids"):
+                    return ("connection-id-changed", "the requests of connection %d reported different ConnectionIDs: %s (operation %d)" % (ci, c["ids"], k))
             ids = [c.get("id") for c in p["conns"]]
             if len(set(ids)) != len(ids) or any(int(i) <= 0 for i in ids):
                 return ("connection-ids", "connection ids not unique/positive: %r" % (ids,))
@@ -1503,7 +1511,9 @@ def life_spec(pid, line, snaps, div=None):
                 return ("conn-open-after-stop", "Stop has returned although %d connection(s) accepted before it was called are still being set up (not closed, OnClose not called) (operation %d)" % (pending, k))
         if pid == "C12":
             st = p.get("stops", "0/0").split("/")
-            if st[1] != "0" and st[0] == st[1] and p.get("run") in ("ok", "err"):
+            # "once Stop and Run have both returned": ANY call of Stop that has returned counts, also
+            # while another call is still waiting
+            if st[0] != "0" and p.get("run") in ("ok", "err"):
                 if p.get("port") == "1":
                     return ("port-still-bound", "Stop and Run have returned and the port is still bound")
                 for ci, c in enumerate(p["conns"]):
@@ -1511,10 +1521,31 @@ def life_spec(pid, line, snaps, div=None):
                         return ("conn-open-after-stop", "Stop and Run have returned and connection %d is still open" % ci)
                     if c.get("onclose") == "0" and "onclose=0" not in line.split(" ")[2]:
                         return ("onclose-pending-after-stop", "Stop and Run have returned and OnClose has not completed for connection %d" % ci)
+    if pid == "C08" and P and OPS and "onclose=0" not in cfgs:
+        # "however it ends (... server Stop)": once Stop was called and everything the scenario
+        # held back (handler barriers, the OnClose hold) is released, every accepted connection
+        # is closed and reported, whatever its client does
+        last = P[-1]
+        used = set(re.findall(r"\bb (\d+)", ops_text)); released = set(o[1] for o in OPS if o[0] == "release")
+        held = False
+        for o in OPS:
+            if o[0] == "holdonclose":
+                held = o[1] == "1"
+        if last.get("stops", "0/0").split("/")[1] != "0" and used <= released and not held and "parkaccept" not in ops_text:
+            for ci, c in enumerate(last["conns"]):
+                if c.get("onclose") == "0":
+                    running = [x for x in c["started"] if x.rstrip("ntu") not in c["ended"]]
+                    return ("never-closed", "Stop was called and every handler was released, yet connection %d was never closed and reported to OnClose (handlers that have not returned: %s)" % (ci, running))
     if pid == "C11" and P:
         last = P[-1]
         st = last.get("stops", "0/0").split("/")
-        if st[1] != "0" and (st[0] != st[1] or last.get("run") not in ("ok", "err")) and "b " not in ops_text:
+        used11 = set(re.findall(r"\bb (\d+)", ops_text)); released11 = set(o[1] for o in OPS if o[0] == "release")
+        held11 = False
+        for o in OPS:
+            if o[0] == "holdonclose":
+                held11 = o[1] == "1"
+        # handlers the scenario holds back are no client's doing: judged once they are all released
+        if st[1] != "0" and (st[0] != st[1] or last.get("run") not in ("ok", "err")) and used11 <= released11 and not held11:
             return ("stop-hangs", "Stop (or Run) did not return within the limit: stops=%s run=%s" % (last.get("stops"), last.get("run")))
     if pid == "C06" and P and OPS:
         for k, p in enumerate(P):
@@ -1707,7 +1738,7 @@ LIFE_RULES = {
     "C06": "pipelines of N = 1,2,3,8,32 (thorough +100,256) requests whose handlers all block on one barrier (every handler must have started, none ended, before the release) and random mixes on 1..3 connections with blocking / writing handlers; Request.ID per connection must be 1,2,3,... ",
     "C07": "7 fault kinds (panic in a concurrently dispatched handler - plain, after writing, with others in flight -, in the inline StartTLS handler, in the unbind handler, malformed frame, abrupt disconnect with a handler in flight) x bystander idle/busy; the bystander and a connection opened after the fault must still be served and the worker process must stay alive",
     "C08": "5 endings (client close, Unbind, malformed frame, recovered panic on the connection goroutine, server Stop) x 3 in-flight states (none, handlers blocked, handler between two writes) x {1,3} connections; OnClose at most once, only after handlers returned and the socket was closed, exactly once at the end",
-    "C09": "random connect / request / close / reconnect histories; ConnectionID seen by handlers (matched to the client through message ids) and by OnClose must be the accept order 1,2,3,...",
+    "C09": "random connect / request / close / reconnect histories, and StartTLS upgrades requested as the 1st, 2nd and 3rd request of three connections with requests before and after; ConnectionID seen by handlers (matched to the client through message ids) and by OnClose must be the accept order 1,2,3,...",
     "C10": "k requests, Unbind, m requests (k,m in 0..3) written in ONE TCP segment, with and without an unbind route, earlier handlers held or not: nothing after the Unbind is dispatched, the unbind handler runs once, the socket closes after the held handlers are released",
     "C11": "Stop (single and concurrent double) with {no, idle, pipelining, handler blocked writing 16 MiB to a client that does not read, StartTLS handshake pending} x {1,4} connections: Stop and Run must return within the limit without any client action",
     "C12": "Stop before Run (then Run must return with the port free), repeated Stop, OnClose held / handlers held / teardown in progress when Stop arrives x {1,3} connections: Stop must not return before OnClose completed and handlers ended; afterwards the port is free and every socket closed",
@@ -1758,7 +1789,7 @@ def make_life_check(pid, gens):
         res.rule = LIFE_RULES[pid] + "; every scenario is predicted by the LTS (Sys.v, canonical scheduler to quiescence) and forced on a real server in a worker process; after each operation the observed snapshot (ready, Run/Stop returns, port, per connection: id, handlers started/ended, closed, OnClose count) must become and stay the predicted one; one evaluation = one scenario"
     CHECKS[pid] = fn
 
-for _pid, _g in [("C06", ["c06"]), ("C07", ["c07", "c07accept", "c07stall"]), ("C08", ["c08", "c08edges"]), ("C09", ["c09", "c07accept"]), ("C10", ["c10", "c10busy"]), ("C11", ["c11", "c11accept"]), ("C12", ["c12", "c12accept", "c12slowstop"]), ("C13", ["c13"])]:
+for _pid, _g in [("C06", ["c06"]), ("C07", ["c07", "c07accept", "c07stall"]), ("C08", ["c08", "c08edges", "stopbulk"]), ("C09", ["c09", "c07accept"]), ("C10", ["c10", "c10busy"]), ("C11", ["c11", "c11accept", "stopbulk", "c11readtimeout"]), ("C12", ["c12", "c12accept", "c12slowstop"]), ("C13", ["c13"])]:
     make_life_check(_pid, _g)
 
 
@@ -1843,7 +1874,7 @@ def check_c18(tier, seed, res):
         tls_client = beh.startswith("tls-")
         if "handler_ran=1" in i and (not tls_client or (cfg == "mtls" and beh != "tls-goodcert")):
             res.violation("handler-reached:%s:%s" % (cfg, beh), line, i, m, "a handler ran for a client that does not satisfy the TLS configuration"); continue
-        if "bystanders=11" not in i or "alive=1" not in i:
+        if "bystanders=111" not in i or "alive=1" not in i:
             res.violation("bystander-affected:%s:%s" % (cfg, beh), line, i, m, "a conforming client was affected by the offending connection"); continue
         if i != m:
             res.mismatch(line, i, m)
@@ -1852,7 +1883,7 @@ def check_c18(tier, seed, res):
     res.exhaustive = True
     res.rule = ("the complete product {real gldap server, real test directory} x {server auth only, client certificate required and verified} x "
                 "{plaintext LDAP request (7 operations), arbitrary bytes, TCP connect without ClientHello, abandoned handshake, TLS without certificate, "
-                "certificate of a different CA, valid certificate}, each between two requests of a conforming bystander; observed: whether a handler ran "
+                "certificate of a different CA, valid certificate}, each with a conforming bystander before, WHILE the offender is still connected, and after; observed: whether a handler ran "
                 "(worker events; for the directory: whether an LDAP response arrived), bystander results, process alive; exhaustive over this finite space")
     res.assumptions.append("crypto/tls enforces the handshake (oracle hs_ok with contract tls_contract); the run confirms the expected table on the installed Go")
 
